@@ -62,7 +62,7 @@ func stuck(x *vrt.Exec, scen string) {
 }
 
 // fanout: A attached throughout; B attaches and detaches while the publisher runs.
-func fanout(n int, full bool, withB bool, detach bool) func(x *vrt.Exec) {
+func fanout(n int, full bool, withB bool, detach bool, gopJoin bool) func(x *vrt.Exec) {
 	return func(x *vrt.Exec) {
 		media.VerifReset()
 		var s *media.Stream
@@ -92,7 +92,12 @@ func fanout(n int, full bool, withB bool, detach bool) func(x *vrt.Exec) {
 		})
 		if withB {
 			vrt.GoNamed("joiner", func() {
-				cid := s.StartConsumeNoGopCache(b, media.RTPPacket, "B")
+				var cid media.CID
+				if gopJoin {
+					cid = s.StartConsume(b, media.RTPPacket, "B")
+				} else {
+					cid = s.StartConsumeNoGopCache(b, media.RTPPacket, "B")
+				}
 				ev++
 				attachRet = ev
 				if detach {
@@ -120,7 +125,7 @@ func fanout(n int, full bool, withB bool, detach bool) func(x *vrt.Exec) {
 		// B: a contiguous, repeat-free run covering the guaranteed window
 		bi := idx(seq, b.Got)
 		for k := range bi {
-			if bi[k] < 0 || (k > 0 && bi[k] != bi[k-1]+1) {
+			if bi[k] < 0 || (k > 0 && bi[k] != bi[k-1]+1 && !gopJoin) || (k > 0 && bi[k] <= bi[k-1]) {
 				x.Failf("fanout B-not-contiguous", "B got %v (not a contiguous run of the published order)", bi)
 				break
 			}
@@ -172,10 +177,11 @@ func scenarios(thorough bool) []runner.Scenario {
 		p, n, sh = 3, 4, 8
 	}
 	return []runner.Scenario{
-		{Name: fmt.Sprintf("fanout-bare-n%d-attach-detach", n), Body: fanout(n, false, true, true), P: p, Shards: sh},
-		{Name: fmt.Sprintf("fanout-bare-n%d-attach", n), Body: fanout(n, false, true, false), P: p, Shards: sh},
-		{Name: fmt.Sprintf("fanout-h264cache-n%d-attach", n+1), Body: fanout(n+1, true, true, false), P: p, Shards: sh},
-		{Name: fmt.Sprintf("fanout-bare-n%d-single", n+2), Body: fanout(n+2, false, false, false), P: p},
+		{Name: fmt.Sprintf("fanout-bare-n%d-attach-detach", n), Body: fanout(n, false, true, true, false), P: p, Shards: sh},
+		{Name: fmt.Sprintf("fanout-bare-n%d-attach", n), Body: fanout(n, false, true, false, false), P: p, Shards: sh},
+		{Name: fmt.Sprintf("fanout-h264cache-n%d-attach", n+1), Body: fanout(n+1, true, true, false, false), P: p, Shards: sh},
+		{Name: fmt.Sprintf("fanout-h264cache-n%d-gop-join", n+1), Body: fanout(n+1, true, true, false, true), P: p, Shards: sh},
+		{Name: fmt.Sprintf("fanout-bare-n%d-single", n+2), Body: fanout(n+2, false, false, false, false), P: p},
 	}
 }
 
